@@ -757,7 +757,8 @@ func CreateNode(r io.Reader) (Node, error) {
 	case NodeTypeExtensionNode:
 		node = NewExtensionNode(nil, nil)
 	default:
-		panic(fmt.Sprintf("unknown node type: %v", code))
+		// not one of the four node type codes: malformed input, not a programming error
+		return nil, ErrInvalidEncoding
 	}
 	var ot OriginTracker
 	_ = ot.Read(r)
